@@ -488,6 +488,10 @@ func desugarIterators(pkgs []*packages.Package) (map[string][]byte, []string, ma
 			ce, cn := constantFuncVars(pk, f, fset)
 			edits = append(edits, ce...)
 			notes = append(notes, cn...)
+			// … and through a function-valued parameter every caller binds to the same function
+			pe, pn := constantFuncParams(pk, f, fset)
+			edits = append(edits, pe...)
+			notes = append(notes, pn...)
 			if len(edits) > 0 {
 				out := applyEdits(content, 0, len(content), edits)
 				for path, local := range keepImport {
@@ -852,5 +856,188 @@ func constantFuncVars(pk *packages.Package, f *ast.File, fset *token.FileSet) ([
 		}
 		return true
 	})
+	return edits, notes
+}
+
+// constantFuncParams: `func (c *C) doAt(opts T, now func() time.Time)` whose one call site is the whole
+// body of a delegating wrapper, `func (c *C) Do(opts T) R { return c.doAt(opts, time.Now) }` — an
+// unexported function or method with a function-typed parameter to which that call hands a named
+// function, that is never used as a value itself and never assigns the parameter: inside its body the parameter denotes that function, and
+// its uses are read as the function's name (when this file imports the function's package under the
+// name the call sites use).
+func constantFuncParams(pk *packages.Package, f *ast.File, fset *token.FileSet) ([]textEdit, []string) {
+	var edits []textEdit
+	var notes []string
+	imported := map[string]string{}
+	for _, im := range f.Imports {
+		path := strings.Trim(im.Path.Value, `"`)
+		name := path[strings.LastIndex(path, "/")+1:]
+		if im.Name != nil {
+			name = im.Name.Name
+		} else if pn := pk.TypesInfo.Implicits[im]; pn != nil {
+			name = pn.Name()
+		}
+		imported[name] = path
+	}
+	for _, dcl := range f.Decls {
+		fd, ok := dcl.(*ast.FuncDecl)
+		if !ok || fd.Body == nil || fd.Name.IsExported() {
+			continue
+		}
+		gobj := pk.TypesInfo.Defs[fd.Name]
+		if gobj == nil {
+			continue
+		}
+		// flat parameter list
+		var params []*ast.Ident
+		for _, fl := range fd.Type.Params.List {
+			if len(fl.Names) == 0 {
+				params = append(params, nil)
+			}
+			params = append(params, fl.Names...)
+		}
+		for pi, pid := range params {
+			if pid == nil {
+				continue
+			}
+			pobj := pk.TypesInfo.Defs[pid]
+			if pobj == nil {
+				continue
+			}
+			if _, isSig := pobj.Type().Underlying().(*types.Signature); !isSig {
+				continue
+			}
+			// every use of g is a call, and every call hands the same named function
+			text, qual := "", ""
+			var fpkg *types.Package
+			okAll, sites := true, 0
+			for _, file := range pk.Syntax {
+				ast.Inspect(file, func(n ast.Node) bool {
+					call, ok := n.(*ast.CallExpr)
+					if !ok {
+						return true
+					}
+					var id *ast.Ident
+					switch fx := call.Fun.(type) {
+					case *ast.Ident:
+						id = fx
+					case *ast.SelectorExpr:
+						id = fx.Sel
+					}
+					if id == nil || pk.TypesInfo.Uses[id] != gobj {
+						return true
+					}
+					sites++
+					if pi >= len(call.Args) || call.Ellipsis.IsValid() {
+						okAll = false
+						return true
+					}
+					t, q := "", ""
+					var tp *types.Package
+					switch a := call.Args[pi].(type) {
+					case *ast.Ident:
+						if fo, ok := pk.TypesInfo.Uses[a].(*types.Func); ok && fo.Type().(*types.Signature).Recv() == nil {
+							t = a.Name
+						}
+					case *ast.SelectorExpr:
+						if x, ok := a.X.(*ast.Ident); ok {
+							if pn, ok := pk.TypesInfo.Uses[x].(*types.PkgName); ok {
+								if fo, ok := pk.TypesInfo.Uses[a.Sel].(*types.Func); ok && fo.Type().(*types.Signature).Recv() == nil {
+									t, q, tp = x.Name+"."+a.Sel.Name, x.Name, pn.Imported()
+								}
+							}
+						}
+					}
+					if t == "" || (text != "" && t != text) {
+						okAll = false
+						return true
+					}
+					text, qual, fpkg = t, q, tp
+					return true
+				})
+			}
+			// g used other than as the callee of a call?
+			uses := 0
+			for id, o := range pk.TypesInfo.Uses {
+				_ = id
+				if o == gobj {
+					uses++
+				}
+			}
+			if !okAll || sites != 1 || uses != sites || text == "" {
+				continue
+			}
+			// the one call site is the whole body of a delegating wrapper: `return g(args…, F)`
+			wrapped := false
+			for _, file := range pk.Syntax {
+				for _, d2 := range file.Decls {
+					w, ok := d2.(*ast.FuncDecl)
+					if !ok || w.Body == nil || len(w.Body.List) != 1 {
+						continue
+					}
+					var e ast.Expr
+					switch st := w.Body.List[0].(type) {
+					case *ast.ReturnStmt:
+						if len(st.Results) == 1 {
+							e = st.Results[0]
+						}
+					case *ast.ExprStmt:
+						e = st.X
+					}
+					call, ok := e.(*ast.CallExpr)
+					if !ok {
+						continue
+					}
+					var id *ast.Ident
+					switch fx := call.Fun.(type) {
+					case *ast.Ident:
+						id = fx
+					case *ast.SelectorExpr:
+						id = fx.Sel
+					}
+					if id != nil && pk.TypesInfo.Uses[id] == gobj {
+						wrapped = true
+					}
+				}
+			}
+			if !wrapped {
+				continue
+			}
+			if fpkg != nil && imported[qual] != fpkg.Path() {
+				continue
+			}
+			// the parameter is only read
+			written := false
+			ast.Inspect(fd.Body, func(n ast.Node) bool {
+				switch x := n.(type) {
+				case *ast.AssignStmt:
+					for _, l := range x.Lhs {
+						if id, ok := l.(*ast.Ident); ok && pk.TypesInfo.Uses[id] == pobj {
+							written = true
+						}
+					}
+				case *ast.UnaryExpr:
+					if id, ok := x.X.(*ast.Ident); ok && x.Op == token.AND && pk.TypesInfo.Uses[id] == pobj {
+						written = true
+					}
+				}
+				return true
+			})
+			if written {
+				continue
+			}
+			n := 0
+			ast.Inspect(fd.Body, func(nd ast.Node) bool {
+				if id, ok := nd.(*ast.Ident); ok && pk.TypesInfo.Uses[id] == pobj {
+					edits = append(edits, textEdit{fset.Position(id.Pos()).Offset, fset.Position(id.End()).Offset, text})
+					n++
+				}
+				return true
+			})
+			if n > 0 {
+				notes = append(notes, fmt.Sprintf("%s: the parameter %s of %s (bound to %s at every call site) read as %s", fset.Position(pid.Pos()), pid.Name, fd.Name.Name, text, text))
+			}
+		}
+	}
 	return edits, notes
 }
